@@ -170,6 +170,29 @@ def build_ops():
         p = r.randint(0, x.ndim)
         return x[(slice(None),) * p + (None,)]
     @op
+    def basic_index_newaxes(r, x):
+        """ints / slices / Ellipsis with 0..3 None entries at arbitrary positions"""
+        _known(x)
+        comps = []
+        for n in x.shape:
+            n = int(n)
+            q = r.random()
+            if q < 0.35 and n > 0:
+                comps.append(r.randint(-n, n - 1))
+            elif q < 0.7:
+                comps.append(slice(r.choice([None, 0, 1, -1]), r.choice([None, n, -1]), r.choice([1, 1, 2, -1])))
+            else:
+                comps.append(slice(None))
+        if comps and r.random() < 0.35:
+            k = r.randint(0, len(comps))
+            j = r.randint(k, len(comps))
+            if all(c == slice(None) for c in comps[k:j]):
+                comps[k:j] = [Ellipsis]
+        for _ in range(r.randint(0, 3)):
+            comps.insert(r.randint(0, len(comps)), None)
+        _need(len(comps) > 0)
+        return x[tuple(comps)]
+    @op
     def take(r, x):
         _known(x); _need(x.ndim >= 1)
         a = _axis(r, x); n = int(x.shape[a]); _need(n > 0)
@@ -506,7 +529,9 @@ SCANS = ("cumsum", "cumprod")
 def classify(rec, clauses):
     """Signature: the operation (class) whose result is wrong, the first failing clause, and the
     structural class of its input.  Input classes behind the recorded known findings come first."""
-    clause = ([c for c in ["Keys", "BlockShape", "LazyShape", "Dtype", "Reassemble"] if c in clauses] or list(clauses))[0]
+    clause = ([c for c in ["Raised", "Shape", "Keys", "BlockShape", "LazyShape", "Dtype", "Reassemble"] if c in clauses] or list(clauses))[0]
+    if rec["op"] == "basic_index":
+        return "meta:basic_index:%s:%s" % (clause, "+".join(rec["feats"]) or "plain")
     feats = [f for f in rec["feats"] if f in ("unknown-chunks", "zero-chunk-on-unit-axis", "zero-chunk", "0d", "empty")]
     shapeish = clause in ("BlockShape", "LazyShape", "Reassemble", "Keys")
     op = rec["op"]
@@ -532,10 +557,14 @@ def validate(ctx, recs, report=True):
     found = []
     for lo in range(0, len(recs), 4000):
         part = recs[lo:lo + 4000]
-        rej = ctx.tlc_validate(spec, [{"id": r["id"], "obs": r["obs"]} for r in part], cfg, timeout=1800)
+        rej = ctx.tlc_validate(spec, [{k: r[k] for k in ("id", "obs", "want") if k in r} for r in part], cfg, timeout=1800)
         for r in part:
-            ctx.count(("rec", r["op"], r["obs"]["chunks"], r["obs"]["whole"]), len(r["obs"]["whole"]["c"]) > 1)
-            py = trim_clauses(meta_clauses(r["obs"]), ["Keys", "BlockShape", "LazyShape", "Dtype", "Reassemble"])
+            ctx.count(("rec", r["op"], r.get("case"), r["obs"]["chunks"], r["obs"]["whole"]), len(r["obs"]["whole"]["c"]) > 1)
+            if r["obs"]["raised"]:
+                py = ["Raised"]
+            else:
+                py = trim_clauses(meta_clauses(r["obs"]) + (["Shape"] if "want" in r and r["obs"]["whole"]["s"] != r["want"] else []),
+                                  ["Shape", "Keys", "BlockShape", "LazyShape", "Dtype", "Reassemble"])
             tl = sorted(_clause_names(rej[r["id"]][0])) if r["id"] in rej else []
             if py != tl:
                 raise MachineryError("Python mirror %r and TLC %r disagree on the clauses of %r" % (py, tl, r))
@@ -547,12 +576,51 @@ def validate(ctx, recs, report=True):
     return found
 
 
-def from_array_cases(ctx, shapes):
-    """Design check + spec -> code binding of the observation function."""
+IDX = {"n": None, "i": 0, "j": -1, "f": slice(None), "s": slice(1, None), "e": Ellipsis}
+
+
+def index_features(ix):
+    """Structural class of a basic index (for signatures)."""
+    nn, ni = ix.count("n"), ix.count("i") + ix.count("j")
+    f = []
+    if nn and ni:
+        f.append("multi-newaxis+int" if nn >= 2 else "newaxis+multi-int" if ni >= 2 else "newaxis+int")
+    elif nn:
+        f.append("newaxis")
+    if "e" in ix:
+        f.append("ellipsis")
+    return f
+
+
+def _index_record(item):
+    """x[index] for one TLC-enumerated basic index: the observation + the shape the spec demands."""
     import dask.array as da
-    spec, cfg = ctx.model(ctx.spec("array", "ArrayMetaMC.tla"), {"Shapes": TLA(shapes)}, invariants=["GoodHolds", "CorruptionsCaught"])
+    n, case, want = item
+    idx = tuple(IDX[c] for c in case["idx"])
+    ref = list(np.empty(tuple(case["shape"]), dtype="i1")[idx].shape)
+    if ref != list(want):
+        return {"guard": "spec shape %r, NumPy %r for %r" % (want, ref, case)}
+    size = int(np.prod(case["shape"]))
+    x = da.from_array(np.arange(size, dtype="i8").reshape(tuple(case["shape"])), chunks=py_chunks(case["chunks"]))
+    try:
+        with warnings.catch_warnings():
+            warnings.simplefilter("ignore")
+            obs, _full = observe_full(x[idx])
+    except Exception as ex:  # noqa: BLE001 - NumPy accepts every index of this family: raising is a violation
+        from ..arrayobs import raised_obs
+        obs = raised_obs(ex)
+    return {"id": "i%d" % n, "op": "basic_index", "feats": index_features(list(case["idx"])), "case": case, "obs": obs, "want": list(want)}
+
+
+def enumerated_cases(ctx, shapes, idxshapes, maxlen, cap=None):
+    """Design check + spec -> code: (i) from_array on every chunking binds the observation function
+    to the specification; (ii) records of x[index] for the exhaustive basic-index family."""
+    import dask.array as da
+    spec, cfg = ctx.model(ctx.spec("array", "ArrayMetaMC.tla"), {"Shapes": TLA(shapes), "IdxShapes": TLA(idxshapes), "MaxLen": maxlen},
+                          invariants=["GoodHolds", "CorruptionsCaught", "IndexRank"])
     cases, _ = ctx.tlc_cases(spec, cfg, label="design+cases")
-    for c in cases:
+    fa = [c for c in cases if c["c"]["fam"] == "from_array"]
+    for c in fa:
         case, exp = c["c"], c["e"]
         n = int(np.prod(case["shape"])) if case["shape"] else 1
         x = da.from_array(np.arange(n, dtype="i8").reshape(tuple(case["shape"])), chunks=py_chunks(case["chunks"]))
@@ -561,17 +629,28 @@ def from_array_cases(ctx, shapes):
         norm = lambda o: dict(o, blocks=sorted(o["blocks"], key=lambda b: b["i"]))
         if norm(obs) != norm(exp):
             ctx.violation("meta:from_array", "the observation of from_array differs from the specification's", {"case": case, "expected": exp, "observed": obs})
-    return cases
+    ix = [c for c in cases if c["c"]["fam"] == "index"]
+    ctx.extra["basic_index_cases_enumerated"] = len(ix)
+    if cap and len(ix) > cap:
+        ix = ctx.rng.sample(ix, cap)
+    recs = pmap(_index_record, [(n, c["c"], c["e"]["shape"]) for n, c in enumerate(ix)])
+    for r in recs:
+        if "guard" in r:
+            raise MachineryError("TLA+ reference disagrees with NumPy: " + r["guard"])
+    return fa, recs
 
 
 def run(ctx):
     shapes = ctx.pick("{<<>>, <<0>>, <<4>>, <<2, 3>>, <<2, 2, 2>>}", "{<<>>, <<0>>, <<3>>, <<5>>, <<6>>, <<2, 3>>, <<3, 3>>, <<4, 3>>, <<2, 2, 2>>, <<3, 2, 2>>}")
-    cases = from_array_cases(ctx, shapes)
+    cases, irecs = enumerated_cases(ctx, shapes, ctx.pick("{<<3>>, <<2, 3>>}", "{<<3>>, <<2, 3>>, <<2, 2, 2>>}"), ctx.pick(4, 5),
+                                    cap=ctx.pick(1500, None))
     ctx.sample({"from_array_case": cases[0]["c"]})
+    if irecs:
+        ctx.sample({"basic_index_case": irecs[0]["case"], "expected_shape": irecs[0]["want"]})
     recs, skips = record_pipelines(ctx, ctx.pick(350, 5000))
     for s in skips:
         ctx.skip(s)
-    validate(ctx, recs)
+    validate(ctx, irecs + recs)
     if recs:
         ctx.sample({"recorded_step": {"op": recs[0]["op"], "obs": {k: recs[0]["obs"][k] for k in ("lshape", "chunks", "dt")}}})
     ctx.exhaustive = False
@@ -590,6 +669,12 @@ def replay(ctx, obj):
         print(c)
         return True
     r = c["record"]
+    if r["op"] == "basic_index":
+        again = _index_record((0, r["case"], r["want"]))
+        spec, cfg = ctx.model(ctx.spec("array", "ArrayMetaTrace.tla"), {})
+        rej = ctx.tlc_validate(spec, [{k: again[k] for k in ("id", "obs", "want")}], cfg)
+        print("index:", r["case"], "want shape", r["want"], "\nobservation:", again["obs"], "\nrejected:", rej)
+        return bool(rej)
     recs, _skips = _pipeline(tuple(r["pipe"]))            # re-execute the whole pipeline from its seed
     again = [x for x in recs if x["id"] == r["id"]]
     if not again:
@@ -627,9 +712,19 @@ def selftest(ctx):
 
     from ..arrayobs import source_mutant
     ok = True
-    cases = from_array_cases(ctx, "{<<3>>, <<2, 2>>}")
-    print("selftest C25: design check + from_array binding on %d chunkings  %s" % (len(cases), "ok" if not ctx.violations else "FAIL"))
-    ok &= not ctx.violations
+    import dask.array.slicing as slicing
+    cases, irecs = enumerated_cases(ctx, "{<<3>>, <<2, 2>>}", "{<<1, 2>>}", 3)
+    ibase = validate(ctx, irecs, report=False)
+    print("selftest C25: design check + from_array binding on %d chunkings, %d basic indices (%d rejected)  %s"
+          % (len(cases), len(irecs), len(ibase), "ok" if not ctx.violations and not ibase else "FAIL"))
+    ok &= not ctx.violations and not ibase
+    with source_mutant(slicing, "slice_with_newaxes", "            where_none[i] -= n\n", "            where_none[i] -= 1\n"):
+        _c, mrecs = enumerated_cases(ctx, "{<<3>>}", "{<<1, 2>>}", 3)
+        found = validate(ctx, mrecs, report=False)
+    feats = sorted({f for r, _cl in found for f in r["feats"]})
+    print("selftest C25 mutant [slice_with_newaxes: a new axis is moved left by one, not by the number of integer indices before it]: "
+          "%d of %d basic indices rejected (%s)  %s" % (len(found), len(mrecs), ",".join(feats), "detected" if found else "NOT DETECTED"))
+    ok &= bool(found)
 
     def pipelines(only, n=60):
         """Short pipelines that end in one of the operations `only`."""
